@@ -153,6 +153,7 @@ def main(tier_: str) -> int:
             urls = [('/dash/vod/bbb/bbb_v7/3.m4v', 0), ('/dash/vod/bbb/bbb_a1/time/352256.m4a', 0),
                     ('/dash/vod/bbb/bbb_t1/2.mp4', 0), (f'/dash/live/bbb/bbb_v7/{live_n}.m4v?start=epoch&depth=60', 0),
                     ('/dash/vod/bbb/bbb_v7_enc/2.m4v?drm=all', 0),
+                    ('/dash/vod/bbb/bbb_v7/2.m4v?vcorrupt=2', 0),      # the body is rewritten in place (corrupted NAL units) before it is sliced
                     ('/dash/odvod/bbb/bbb_a1.m4a', 1), ('/dash/odvod/bbb/bbb_t1.mp4', 1),
                     ('/dash/odvod/bbb/bbb_v6.m4v', 1)]        # 1.8 MB: slices of more than a megabyte
             with da.app.app_context():
@@ -199,7 +200,7 @@ def main(tier_: str) -> int:
                              'exc': type(err).__name__}
                     lines.append({'tid': tid, 'layer': 'http', 'h': classify(raw), 'L': L, 'mandatory': mandatory,
                                   'raw': raw if raw is not None else '(absent)', 'url': url, 'r': r})
-            if usable < 8:
+            if usable < 9:
                 raise MachineryFailure(f'only {usable} range-capable URLs usable: {out.notes}')
         vs, st = validate_trace('HttpRangeTrace', lines, workdir=d, chunk=5000, parallel=4)
         drift = 0
